@@ -39,7 +39,7 @@ fn too_many(what: &str, total: usize) -> Fail {
 }
 
 /// Feed the event decoder; logical bound: every item consumes at least one input byte
-pub fn run_event(input: &[u8], cuts: &[usize]) -> Result<Vec<TerminalEvent>, Fail> {
+fn run_event_plain(input: &[u8], cuts: &[usize]) -> Result<Vec<TerminalEvent>, Fail> {
     let mut decoder = TTYEventDecoder::new();
     let mut out = Vec::new();
     for chunk in chunks(input, cuts) {
@@ -72,6 +72,118 @@ pub fn run_event(input: &[u8], cuts: &[usize]) -> Result<Vec<TerminalEvent>, Fai
                     "event:some-after-exhaustion",
                     format!("decode on empty input after exhaustion returned {other:?}"),
                 ))
+            }
+        }
+    }
+    Ok(out)
+}
+
+/// Feed the event decoder. Three routes must agree: `decode` until it reports nothing more,
+/// `decode_into` (one call per read), and `decode` over a reader whose first `fill_buf` of every
+/// read fails with a transient error (the call is simply repeated). The `decode` result is returned.
+pub fn run_event(input: &[u8], cuts: &[usize]) -> Result<Vec<TerminalEvent>, Fail> {
+    let plain = run_event_plain(input, cuts)?;
+    let into = run_event_into(input, cuts)?;
+    agree("event", "decode_into", &plain, &into, input, cuts)?;
+    let mut decoder = TTYEventDecoder::new();
+    let flaky = run_flaky(&mut decoder, "event", input, cuts, |e| match e {
+        surf_n_term::Error::IOError(e) => Some(e.kind()),
+        _ => None,
+    })?;
+    agree("event", "transient-read-errors", &plain, &flaky, input, cuts)?;
+    Ok(plain)
+}
+
+pub fn run_command(input: &[u8], cuts: &[usize]) -> Result<Vec<TerminalCommand>, Fail> {
+    let plain = run_command_plain(input, cuts)?;
+    let into = run_command_into(input, cuts)?;
+    agree("command", "decode_into", &plain, &into, input, cuts)?;
+    let mut decoder = TTYCommandDecoder::new();
+    let flaky = run_flaky(&mut decoder, "command", input, cuts, |e| match e {
+        surf_n_term::Error::IOError(e) => Some(e.kind()),
+        _ => None,
+    })?;
+    agree("command", "transient-read-errors", &plain, &flaky, input, cuts)?;
+    Ok(plain)
+}
+
+fn agree<T: PartialEq + std::fmt::Debug>(
+    what: &str,
+    route: &str,
+    plain: &[T],
+    other: &[T],
+    input: &[u8],
+    cuts: &[usize],
+) -> Result<(), Fail> {
+    if plain == other {
+        return Ok(());
+    }
+    let at = plain.iter().zip(other.iter()).position(|(a, b)| a != b).unwrap_or(plain.len().min(other.len()));
+    Err(Fail::new(
+        format!("{what}:route-dependence:{route}"),
+        format!(
+            "{what} decoder: `decode` yields {} items, the {route} route {}; first difference at #{at}: {:?} vs {:?}; input={} cuts={:?}",
+            plain.len(),
+            other.len(),
+            plain.get(at),
+            other.get(at),
+            esc(input),
+            &cuts[..cuts.len().min(16)]
+        ),
+    ))
+}
+
+/// reader over one chunk whose first `fill_buf` fails once with a transient error
+struct FlakyRead<'a> {
+    inner: Cursor<&'a [u8]>,
+    fail_next: Option<std::io::ErrorKind>,
+}
+
+impl std::io::Read for FlakyRead<'_> {
+    fn read(&mut self, buf: &mut [u8]) -> std::io::Result<usize> {
+        if let Some(kind) = self.fail_next.take() {
+            return Err(kind.into());
+        }
+        self.inner.read(buf)
+    }
+}
+
+impl std::io::BufRead for FlakyRead<'_> {
+    fn fill_buf(&mut self) -> std::io::Result<&[u8]> {
+        if let Some(kind) = self.fail_next.take() {
+            return Err(kind.into());
+        }
+        self.inner.fill_buf()
+    }
+    fn consume(&mut self, amt: usize) {
+        self.inner.consume(amt)
+    }
+}
+
+fn run_flaky<D: Decoder>(
+    decoder: &mut D,
+    what: &str,
+    input: &[u8],
+    cuts: &[usize],
+    kind_of: impl Fn(&D::Error) -> Option<std::io::ErrorKind>,
+) -> Result<Vec<D::Item>, Fail>
+where
+    D::Error: std::fmt::Debug,
+{
+    let mut out = Vec::new();
+    for (n, chunk) in chunks(input, cuts).into_iter().enumerate() {
+        let kind = if n % 2 == 0 { std::io::ErrorKind::WouldBlock } else { std::io::ErrorKind::Interrupted };
+        let mut reader = FlakyRead { inner: Cursor::new(chunk), fail_next: Some(kind) };
+        let mut failures = 0;
+        loop {
+            match decoder.decode(&mut reader) {
+                Ok(Some(item)) => out.push(item),
+                Ok(None) => break,
+                Err(e) if kind_of(&e) == Some(kind) && failures == 0 => failures += 1,
+                Err(e) => return Err(Fail::new(format!("{what}:decode-error"), format!("decode returned error {e:?}"))),
+            }
+            if out.len() > input.len() + 1 {
+                return Err(too_many(what, input.len()));
             }
         }
     }
@@ -126,7 +238,7 @@ where
     Ok(out)
 }
 
-pub fn run_command(input: &[u8], cuts: &[usize]) -> Result<Vec<TerminalCommand>, Fail> {
+fn run_command_plain(input: &[u8], cuts: &[usize]) -> Result<Vec<TerminalCommand>, Fail> {
     let mut decoder = TTYCommandDecoder::new();
     let mut out = Vec::new();
     for chunk in chunks(input, cuts) {
